@@ -301,3 +301,32 @@ def run_playback_test(xt_dir, test_name, test_src, timeout=900):
     reproduced = bool(failed and ran and pm) or bool(sig)
     return dict(test_src=test_src, test_name=test_name, reproduced=reproduced,
                 panic=panic or (sig.group(0) if sig else None), output=out[-4000:])
+
+
+def native_search(repo, scratch, src_rel, native_file, timeout=600):
+    """Bounded native search for a concrete failing input (helper for Verus failures; never a deciding step)."""
+    sdir = os.path.join(scratch, 'native')
+    os.makedirs(sdir, exist_ok=True)
+    xt_dir = make_scratch(repo, sdir)
+    hdir = os.path.join(sdir, 'harness')
+    os.makedirs(hdir, exist_ok=True)
+    for f in os.listdir(HARNESS_SRC):
+        if f.endswith('.rs'):
+            shutil.copy(os.path.join(HARNESS_SRC, f), os.path.join(hdir, f))
+    ndir = os.path.join(sdir, 'native_src')
+    os.makedirs(ndir, exist_ok=True)
+    shutil.copy(os.path.join(VERIF, 'contracts', 'native', native_file), os.path.join(ndir, native_file))
+    with open(os.path.join(xt_dir, src_rel), 'a') as f:
+        f.write('\n#[cfg(test)] #[path = "%s"] mod verif_native;\n' % os.path.join(ndir, native_file))
+    ct = os.path.join(xt_dir, 'Cargo.toml')
+    t = open(ct).read()
+    open(ct, 'w').write(re.sub(r'(?m)^panic\s*=\s*"abort"\s*\n', '', t))
+    # optimised build, but with the overflow / debug assertions of the dev profile, so that arithmetic panics show
+    env = dict(os.environ, CARGO_NET_OFFLINE='true', RUSTFLAGS='-C overflow-checks=on -C debug-assertions=on')
+    cmd = ['cargo', 'test', '--offline', '--release', '--lib', 'verif_native_search', '--', '--nocapture', '--test-threads', '1']
+    try:
+        p = subprocess.run(cmd, cwd=xt_dir, env=env, stdout=subprocess.PIPE, stderr=subprocess.STDOUT, text=True, timeout=timeout)
+    except subprocess.TimeoutExpired:
+        return dict(found=None, output='native search timed out', cmd=' '.join(cmd))
+    m = re.search(r'FAILING-INPUT: (.*)$', p.stdout, re.M)
+    return dict(found=m.group(1) if m else None, output=p.stdout[-1500:], cmd=' '.join(cmd), exhausted='NO-FAILING-INPUT-FOUND' in p.stdout)
